@@ -214,7 +214,7 @@ func (g *grammarCtx) keywordRule(r *RuleResult, side string) {
 	p := g.p
 	nameK := g.nameKind()
 	for _, fn := range g.m.fns {
-		if s := g.side(fn); s != side && !(s == "core" && side == "query") {
+		if s := g.side(fn); s != side && s != "core" {
 			continue
 		}
 		allInstrs(fn, func(in ssa.Instruction) {
@@ -228,6 +228,11 @@ func (g *grammarCtx) keywordRule(r *RuleResult, side string) {
 				kw, tv = s, bo.X
 			} else if s, ok := constString(bo.X); ok {
 				kw, tv = s, bo.Y
+			} else if prm, ok := bo.Y.(*ssa.Parameter); ok && isStringType(prm.Type()) {
+				// the keyword handed in by the caller (expectKeyword)
+				kw, tv = "<"+prm.Name()+">", bo.X
+			} else if prm, ok := bo.X.(*ssa.Parameter); ok && isStringType(prm.Type()) {
+				kw, tv = "<"+prm.Name()+">", bo.Y
 			} else {
 				return
 			}
